@@ -1,6 +1,7 @@
 // latsample — sample of (stored latitude, zoom, row returned by the code) for the interval certificates of property C01
 // (meta step "latcert", harness/props/c01/latcert.py).  Built against the tree under analysis; prints one line per point:
-//   <latitude bits, 16 hex digits> <hZoom> <y of shape.GetExtendedSpatialIdsOnPoints>
+//
+//	<latitude bits, 16 hex digits> <y at zoom 0> <y at zoom 1> ... <y at zoom 35>      (y of shape.GetExtendedSpatialIdsOnPoints)
 package main
 
 import (
@@ -23,43 +24,46 @@ func main() {
 	n := flag.Int("n", 100, "number of points")
 	flag.Parse()
 	g := &gen.Gen{R: rand.New(rand.NewSource(*seed*7919 + 17)), Tier: "quick"}
-	emit := func(lat float64, h int64) bool {
+	emit := func(lat float64) bool {
 		p, _, ok := gen.StoredPoint(g.Lon(), lat, g.Alt())
 		if !ok {
 			return false
 		}
-		ids, err := shape.GetExtendedSpatialIdsOnPoints([]*object.Point{p}, h, 0)
-		if err != nil || len(ids) != 1 {
-			fmt.Fprintln(os.Stderr, "latsample: unexpected error for", lat, h)
-			os.Exit(2)
+		line := fmt.Sprintf("%016x", math.Float64bits(p.Lat()))
+		for h := int64(0); h <= 35; h++ {
+			ids, err := shape.GetExtendedSpatialIdsOnPoints([]*object.Point{p}, h, 0)
+			if err != nil || len(ids) != 1 {
+				fmt.Fprintln(os.Stderr, "latsample: unexpected error for", lat, h)
+				os.Exit(2)
+			}
+			fs := strings.Split(ids[0], "/")
+			if len(fs) != 5 {
+				fmt.Fprintln(os.Stderr, "latsample: malformed id", ids[0])
+				os.Exit(2)
+			}
+			y, err := strconv.ParseInt(fs[2], 10, 64)
+			if err != nil {
+				fmt.Fprintln(os.Stderr, "latsample: malformed id", ids[0])
+				os.Exit(2)
+			}
+			line += fmt.Sprintf(" %d", y)
 		}
-		fs := strings.Split(ids[0], "/")
-		if len(fs) != 5 {
-			fmt.Fprintln(os.Stderr, "latsample: malformed id", ids[0])
-			os.Exit(2)
-		}
-		y, err := strconv.ParseInt(fs[2], 10, 64)
-		if err != nil {
-			fmt.Fprintln(os.Stderr, "latsample: malformed id", ids[0])
-			os.Exit(2)
-		}
-		fmt.Printf("%016x %d %d\n", math.Float64bits(p.Lat()), h, y)
+		fmt.Println(line)
 		return true
 	}
-	// forced: the two limit latitudes and the equator's neighbours at the extreme zooms
+	// forced: the limit latitudes, the equator's neighbours, and the edge values of the main generator (gen.Lat, c01.latFor)
 	cnt := 0
-	for _, lat := range []float64{gen.LatMax, -gen.LatMax, 1e-10, -1e-10, 66.51326044311186, -66.51326044311186, 45, -45} {
-		for _, h := range []int64{0, 1, 35} {
-			if cnt < *n && emit(lat, h) {
-				cnt++
-			}
+	for _, lat := range []float64{gen.LatMax, -gen.LatMax, 85.0511287798 + 9e-11, 85.05112877979, -85.05112877979, 85.05112877, -85.05112877,
+		0, math.Copysign(0, -1), 1e-10, -1e-10, 2e-10, 1e-11, -1e-11, 5e-324, 1e-20, 66.51326044311186, -66.51326044311186, 45, -45} {
+		if cnt < *n && emit(lat) {
+			cnt++
 		}
 	}
 	for cnt < *n {
 		lat := g.Lat()
-		h := g.Zoom()
-		if g.Chance(0.3) {
-			// the stored value nearest to a row boundary of zoom h (stored latitudes are multiples of 1e-10)
+		if g.Chance(0.4) {
+			// the stored values nearest to a row boundary of some zoom (stored latitudes are multiples of 1e-10)
+			h := g.Zoom()
 			k := g.Int63n(int64(1)<<uint(h) + 1)
 			lat = math.Atan(math.Sinh(math.Pi*(1-2*float64(k)/math.Pow(2, float64(h))))) * 180 / math.Pi
 			lat = math.Round(lat*1e10)/1e10 + float64(g.Intn(3)-1)*1e-10
@@ -67,7 +71,7 @@ func main() {
 		if math.Abs(lat) > gen.LatMax {
 			lat = math.Copysign(gen.LatMax, lat)
 		}
-		if emit(lat, h) {
+		if emit(lat) {
 			cnt++
 		}
 	}
